@@ -1,7 +1,8 @@
 """Check configuration for C09 (loaded by bin/props.py)."""
-from props_common import STD_ASSUME
+from props_common import STD_ASSUME, KNOBS_ENGINES, KNOBS_ASSUME
 
 CFG = {
+    "knobs": KNOBS_ENGINES,
     "pkg": "banyand/internal/verif/props/c09",
     "level": "exploration",
     "level_text": ("seeded exploration on a real standalone node: generated histories spread rows over series, shards (1-3), day segments and parts (real flushes and merges driven by the fake clock); "
@@ -18,5 +19,5 @@ CFG = {
         "real": ["banyand/internal/sidx public step API and both query interfaces", "banyand/stream + banyand/measure query paths (sort by time across parts/shards/segments, index-ordered iteration)", "pkg/query/logical + executors (limit/offset)", "pkg/index/inverted", "liaison front-end, banyand/query"],
         "stub": ["metadata registry (simmeta)", "gRPC transport", "clock (testing/synctest)"],
     },
-    "assumptions": STD_ASSUME,
+    "assumptions": STD_ASSUME + [KNOBS_ASSUME],
 }
